@@ -38,9 +38,9 @@ func sConst(v constant.Value) *Sym {
 	}
 	return &Sym{Op: "const", C: v, Kind: k}
 }
-func sInt(i int64) *Sym    { return sConst(constant.MakeInt64(i)) }
-func sStr(s string) *Sym   { return sConst(constant.MakeString(s)) }
-func sBool(b bool) *Sym    { return sConst(constant.MakeBool(b)) }
+func sInt(i int64) *Sym      { return sConst(constant.MakeInt64(i)) }
+func sStr(s string) *Sym     { return sConst(constant.MakeString(s)) }
+func sBool(b bool) *Sym      { return sConst(constant.MakeBool(b)) }
 func sUnknown(w string) *Sym { return &Sym{Op: "unknown", Name: w} }
 func sNot(x *Sym) *Sym {
 	if x.Op == "const" && x.C.Kind() == constant.Bool {
@@ -158,8 +158,12 @@ func sIte(c, a, b *Sym) *Sym {
 	}
 	return &Sym{Op: "ite", Kids: []*Sym{c, a, b}, Kind: k}
 }
-func isTrue(s *Sym) bool  { return s.Op == "const" && s.C.Kind() == constant.Bool && constant.BoolVal(s.C) }
-func isFalse(s *Sym) bool { return s.Op == "const" && s.C.Kind() == constant.Bool && !constant.BoolVal(s.C) }
+func isTrue(s *Sym) bool {
+	return s.Op == "const" && s.C.Kind() == constant.Bool && constant.BoolVal(s.C)
+}
+func isFalse(s *Sym) bool {
+	return s.Op == "const" && s.C.Kind() == constant.Bool && !constant.BoolVal(s.C)
+}
 
 func (s *Sym) String() string {
 	if s == nil {
